@@ -475,6 +475,20 @@ def check_consumer_pairing(ck: Checker, rid: str, m: Fifo, producer_tuple_len=2)
             else:
                 bad_raises.append(n)
     ck.ob(rid, m.outer, (loop.lineno, 'raises in the consumer loop'), not bad_raises, 'the consumer raises only what the future\'s result() raised (re-raise in its handler) or the feeder\'s forwarded exception' if not bad_raises else f'L{bad_raises[0].lineno}: `{norm_text(bad_raises[0].ast)}` raises by looking at the outcome value: a worker that *returns* an exception object (errors as values, exception objects passed through) aborts the stream at that element, where the sequential map yields the object')
+    # (f) what may become an element's output: a handler around the result call that lets the iteration go on (binds the
+    #     exception as the output under return_exceptions) catches Exception at most.  KeyboardInterrupt / SystemExit /
+    #     GeneratorExit / CancelledError arriving while the consumer waits are events of the *consumer*, not outcomes of
+    #     element i: caught there, an interrupt is yielded as a result (the real result is dropped) and never interrupts.
+    lat = cfg.lat
+    ynodes = {k.id for k in cfg.nodes if loop.id in k.loops and isinstance(k.ast, ast.Expr) and isinstance(k.ast.value, (ast.Yield, ast.YieldFrom))}
+    for h in cfg.nodes:
+        if h.kind == 'except' and loop.id in h.loops and h.pending is None and any(e.kind == 'exc' and _awaits(cfg.nodes[e.src], fn) for e in cfg.pred[h.id]):
+            goes_on = path_avoiding(cfg, [e for e in cfg.succ[h.id] if not e.is_exc], ynodes, avoid=set(), edge_ok=lambda e: not e.is_exc) is not None
+            ht = h.ast.type
+            caught = ['BaseException'] if ht is None else [(dotted(t) or '?').split('.')[-1] for t in (ht.elts if isinstance(ht, ast.Tuple) else [ht])]
+            wide = [k for k in caught if not lat.covers(['Exception'], k)]
+            if goes_on:
+                ck.ob(rid, m.outer, h.ast, not wide, f'the handler that turns a failed call into the element\'s output catches {caught}: an outcome of the call, never an event of the consumer' if not wide else f'the handler that turns a failure into the element\'s output catches {wide}: a KeyboardInterrupt / SystemExit / GeneratorExit / CancelledError that reaches the consumer while it waits for element i is yielded as the result of element i (whose real result is dropped) and the interrupt is lost')
     # (d) the loop ends normally only on the end marker
     check_loop_ends_on_marker(ck, rid, m.outer, cfg, loop, zname)
     # (c) one yield per dequeue
